@@ -535,6 +535,19 @@ func c17FillConf(c *Ctx) {
 		}
 		okMap = okMap && copyMap != nil
 	}
+	// or: maps.Clone of that map (the type key is then removed from the clone with maps.DeleteFunc)
+	var cloneCall *ssa.Call
+	if tsk != nil && !okMap && copyMap == nil {
+		okMap = len(leaves) > 0
+		for _, l := range leaves {
+			if cl, isC := l.(*ssa.Call); isC && isGenericStd(cl, "maps", "Clone") && len(cl.Call.Args) == 1 && DerivesOnly(cl.Call.Args[0], false, IsResultOf(tsk, 0)) && (cloneCall == nil || cloneCall == cl) {
+				cloneCall = cl
+			} else if !IsResultOf(tsk, 0)(l) {
+				okMap = false
+			}
+		}
+		okMap = okMap && cloneCall != nil
+	}
 	c.Check(iv.Is(1, 1) && okArgs && okMap, "O17.3", fk(fill)+":strict-decode-and-validate", call.Pos(),
 		fmt.Sprintf("DecodeAndValidate(confData, conf) per fillConf call = %v (want [1,1] - also for a config struct without fields: that is how unknown keys of config-less plugins are rejected); conf is the closure's argument: %v; the map is parseConf's confData: %v", iv, okArgs, okMap))
 	// error returned
@@ -593,7 +606,26 @@ func c17FillConf(c *Ctx) {
 			okDel = false
 		}
 	})
-	if copyMap == nil {
+	if cloneCall != nil {
+		// exactly one maps.DeleteFunc on the clone, with a predicate that is true for the type key only
+		nDF, okDF := 0, true
+		EachInstr(cloneCall.Parent(), func(in ssa.Instruction) {
+			cl, isC := in.(*ssa.Call)
+			if !isC || !isGenericStd(cl, "maps", "DeleteFunc") || len(cl.Call.Args) != 2 {
+				return
+			}
+			if !DerivesOnly(cl.Call.Args[0], false, func(v ssa.Value) bool { return v == ssa.Value(cloneCall) }) {
+				okDF = false // deletes from something else (the caller's map?)
+				return
+			}
+			nDF++
+			preds := P.FuncValues(cl.Call.Args[1])
+			if len(preds) != 1 || !c17IsTypeKeyTest(preds[0], 0, 0) {
+				okDF = false
+			}
+		})
+		c.Check(nDel == 0 && nDF == 1 && okDF, "O17.3", fk(pc)+":only-the-type-key-is-removed", pc.Pos(), fmt.Sprintf("the settings are cloned and %d maps.DeleteFunc call(s) remove from the clone the keys for which the predicate says 'type' in any case: %v; %d delete() calls", nDF, okDF, nDel))
+	} else if copyMap == nil {
 		c.Check(nDel == 1 && okDel, "O17.3", fk(pc)+":only-the-type-key-is-removed", pc.Pos(), fmt.Sprintf("%d delete(confData, key) call(s), each under strings.ToLower(key) == \"type\": %v", nDel, okDel))
 	} else {
 		c17CopyWithoutType(c, copyMap.Parent(), tsk, copyMap, nDel)
@@ -1131,4 +1163,52 @@ func c17Placeholders(c *Ctx) {
 	}
 	_ = os.Getenv
 	_ = filepath.Join
+}
+
+// c17IsTypeKeyTest: fn returns, on every return, whether its parameter #ki is the key "type" in any letter case:
+// strings.EqualFold("type", key), strings.ToLower(key) == "type", or a helper of the package that does.
+func c17IsTypeKeyTest(fn *ssa.Function, ki, depth int) bool {
+	if fn == nil || ki >= len(fn.Params) || depth > 2 || len(fn.Blocks) == 0 {
+		return false
+	}
+	key := ssa.Value(fn.Params[ki])
+	n := 0
+	for _, b := range fn.Blocks {
+		r, ok := b.Instrs[len(b.Instrs)-1].(*ssa.Return)
+		if !ok || len(r.Results) != 1 {
+			continue
+		}
+		n++
+		v := r.Results[0]
+		okV := false
+		if cl, _ := CallOfValue(v); cl != nil {
+			switch {
+			case MatchCC(&cl.Call, Spec{"strings", "", "EqualFold"}) && len(cl.Call.Args) == 2:
+				for _, pr := range [][2]ssa.Value{{cl.Call.Args[0], cl.Call.Args[1]}, {cl.Call.Args[1], cl.Call.Args[0]}} {
+					if s, isS := ConstString(pr[0]); isS && s == "type" && pr[1] == key {
+						okV = true
+					}
+				}
+			case cl.Call.StaticCallee() != nil && PkgOf(cl.Call.StaticCallee()) == PkgOf(fn):
+				for j, a := range cl.Call.Args {
+					if a == key && c17IsTypeKeyTest(cl.Call.StaticCallee(), j, depth+1) {
+						okV = true
+					}
+				}
+			}
+		}
+		if bo, isB := v.(*ssa.BinOp); isB && bo.Op == token.EQL {
+			for _, pr := range [][2]ssa.Value{{bo.X, bo.Y}, {bo.Y, bo.X}} {
+				if s, isS := ConstString(pr[0]); isS && s == "type" {
+					if cl, _ := CallOfValue(pr[1]); cl != nil && MatchCC(&cl.Call, Spec{"strings", "", "ToLower"}) && cl.Call.Args[0] == key {
+						okV = true
+					}
+				}
+			}
+		}
+		if !okV {
+			return false
+		}
+	}
+	return n > 0
 }
